@@ -165,6 +165,62 @@ pub fn rungs() -> Vec<Rung> {
         f.push(fs(1, 5));
         Case { prior: vec![v9_tpl_packet(256, &f)], input: v9_packet(&V9Pkt::new(vec![V9Set::Data(256, distinct(60000, 1))])) }
     }));
+    // ---- cache states: n definitions already cached (ids 256..256+n, delivered in packets of 4096 definitions), then
+    // one fixed buffer: a maximal set of definitions of the OTHER kind for ids the cache does not hold, a maximal set
+    // of the same kind, or a maximal data set - the cost of a call may not depend on how much the parser remembers
+    let prior9 = |n: usize, opt: bool| -> Vec<Vec<u8>> {
+        (0..n)
+            .collect::<Vec<_>>()
+            .chunks(4096)
+            .map(|c| {
+                if opt {
+                    v9_packet(&V9Pkt::new(vec![V9Set::OptTpl(c.iter().map(|k| V9OptTpl { id: 256 + *k as u16, scope: vec![fs(1, 4)], opts: vec![] }).collect(), 0)]))
+                } else {
+                    v9_packet(&V9Pkt::new(vec![V9Set::Tpl(c.iter().map(|k| V9Tpl { id: 256 + *k as u16, fields: vec![fs(1, 4)] }).collect(), 0)]))
+                }
+            })
+            .collect()
+    };
+    let prior10 = |n: usize, opt: bool| -> Vec<Vec<u8>> {
+        (0..n)
+            .collect::<Vec<_>>()
+            .chunks(4096)
+            .map(|c| {
+                if opt {
+                    ipfix_message(&IpfixMsg::new(vec![IpfixSet::OptTpl(c.iter().map(|k| IpfixOptTpl { id: 256 + *k as u16, scope_count: 1, fields: vec![fs(149, 4)] }).collect(), 0)]))
+                } else {
+                    ipfix_message(&IpfixMsg::new(vec![IpfixSet::Tpl(c.iter().map(|k| IpfixTpl { id: 256 + *k as u16, fields: vec![fs(1, 4)] }).collect(), 0)]))
+                }
+            })
+            .collect()
+    };
+    const NEW: usize = 6000; // definitions in the arriving set, ids 40000..46000
+    const CACHED_MAX: usize = 32768;
+    for opt_cached in [false, true] {
+        for opt_new in [false, true] {
+            let kind = |o: bool| if o { "options-templates" } else { "templates" };
+            v.push(rung(&format!("v9-n-cached-{}-then-{}-{}", kind(opt_cached), NEW, kind(opt_new)), CACHED_MAX, move |n| Case {
+                prior: prior9(n, opt_cached),
+                input: if opt_new {
+                    v9_packet(&V9Pkt::new(vec![V9Set::OptTpl((0..NEW).map(|k| V9OptTpl { id: 40000 + k as u16, scope: vec![fs(1, 4)], opts: vec![] }).collect(), 0)]))
+                } else {
+                    v9_packet(&V9Pkt::new(vec![V9Set::Tpl((0..NEW).map(|k| V9Tpl { id: 40000 + k as u16, fields: vec![fs(1, 4)] }).collect(), 0)]))
+                },
+            }));
+            v.push(rung(&format!("ipfix-n-cached-{}-then-{}-{}", kind(opt_cached), NEW, kind(opt_new)), CACHED_MAX, move |n| Case {
+                prior: prior10(n, opt_cached),
+                input: if opt_new {
+                    ipfix_message(&IpfixMsg::new(vec![IpfixSet::OptTpl((0..NEW).map(|k| IpfixOptTpl { id: 40000 + k as u16, scope_count: 1, fields: vec![fs(149, 4)] }).collect(), 0)]))
+                } else {
+                    ipfix_message(&IpfixMsg::new(vec![IpfixSet::Tpl((0..NEW).map(|k| IpfixTpl { id: 40000 + k as u16, fields: vec![fs(1, 4)] }).collect(), 0)]))
+                },
+            }));
+        }
+        let kind = if opt_cached { "options-templates" } else { "templates" };
+        // data: 15 000 records of 4 bytes (V9 options data: scope only) under the first cached definition
+        v.push(rung(&format!("v9-n-cached-{}-then-60000-data-bytes", kind), CACHED_MAX, move |n| Case { prior: prior9(n, opt_cached), input: v9_packet(&V9Pkt::new(vec![V9Set::Data(256, distinct(60000, 9))])) }));
+        v.push(rung(&format!("ipfix-n-cached-{}-then-60000-data-bytes", kind), CACHED_MAX, move |n| Case { prior: prior10(n, opt_cached), input: ipfix_message(&IpfixMsg::new(vec![IpfixSet::Data(256, distinct(60000, 9))])) }));
+    }
     v.push(rung("v9-failing-record-retry-loop-data-length", 65535 - 24, |nd| Case { prior: vec![v9_tpl_packet(256, &[fs(5, 1), fs(1, 5)])], input: v9_packet(&V9Pkt::new(vec![V9Set::Data(256, distinct(nd, 1))])) }));
     v
 }
